@@ -121,7 +121,7 @@ def plan_order_check(r, info):
     return out
 
 
-def make_result(rng, cross=None, which=None, kind=None, backend="numba", layout=None):
+def make_result(rng, cross=None, which=None, kind=None, backend="numba", layout=None, scheduler=None):
     """Returns (result, analyzer, info). which in {'full','single','equalK'}."""
     from speckit.analysis import SpectrumAnalyzer
     cross = rng.random() < 0.6 if cross is None else cross
@@ -146,6 +146,10 @@ def make_result(rng, cross=None, which=None, kind=None, backend="numba", layout=
         kw["scheduler"] = rng.choice(["rev:", "rot:", "dup:"]) + rng.choice(["lpsd", "ltf", "vectorized_ltf"])
         if kw["scheduler"].endswith(":lpsd"):
             kw["Lmin"] = 1      # lpsd ignores Lmin; the analyzer validates a user callable's L against it
+    if scheduler is not None and which == "full":
+        kw["scheduler"] = scheduler
+        if scheduler.endswith(":lpsd"):
+            kw["Lmin"] = 1
     data = np.vstack([x, y]) if cross else x
     if cross and (layout == "Nx2" or (layout is None and rng.random() < 0.25)):
         data = np.column_stack([x, y]); layout = "Nx2"          # the documented one-column-per-channel layout
